@@ -130,6 +130,32 @@ struct str_iterator _ZNSt7__cxx1112basic_stringIcSt11char_traitsIcESaIcEE5eraseE
 { struct str_iterator it; LIVE(this, 32, "std::string::erase"); __CPROVER_assert(ITER_IDX(&pos) < SZ(this), "std::string::erase(iterator): the position is dereferenceable (erase(end()) is undefined)"); SZ(this) = SZ(this) - 1; __havoc_str(this); ITER_IDX(&it) = ITER_IDX(&pos); return it; }
 struct vchar_iterator _ZNSt6vectorIcSaIcEE5eraseEN9__gnu_cxx17__normal_iteratorIPKcS1_EE(struct vec_char *this, struct vchar_citerator pos)
 { struct vchar_iterator it; LIVE(this, 24, "std::vector<char>::erase"); __CPROVER_assert(ITER_IDX(&pos) < SZ(this), "std::vector<char>::erase(iterator): the position is dereferenceable (erase(end()) is undefined)"); SZ(this) = SZ(this) - 1; CW(this, 0) = __g2c_nondet_ulong(); ITER_IDX(&it) = ITER_IDX(&pos); return it; }
+/* end(), insert(pos, value), insert(pos, first, last): positions up to size() are valid; the range [first, last) is read from another container */
+struct vchar_iterator _ZNSt6vectorIcSaIcEE3endEv(struct vec_char *this) { struct vchar_iterator it; LIVE(this, 24, "std::vector<char>::end"); ITER_IDX(&it) = SZ(this); return it; }
+struct str_iterator _ZNSt7__cxx1112basic_stringIcSt11char_traitsIcESaIcEE3endEv(struct std_string *this) { struct str_iterator it; LIVE(this, 32, "std::string::end"); ITER_IDX(&it) = SZ(this); return it; }
+struct vchar_iterator _ZNSt6vectorIcSaIcEE6insertEN9__gnu_cxx17__normal_iteratorIPKcS1_EEOc(struct vec_char *this, struct vchar_citerator pos, char *c)
+{ struct vchar_iterator it; (void)c; LIVE(this, 24, "std::vector<char>::insert"); __CPROVER_assert(ITER_IDX(&pos) <= SZ(this), "std::vector<char>::insert(iterator, c): the position is within [begin, end]"); __CPROVER_assume(SZ(this) < MAXLEN); SZ(this) = SZ(this) + 1; CW(this, 0) = __g2c_nondet_ulong(); ITER_IDX(&it) = ITER_IDX(&pos); return it; }
+struct vchar_iterator _ZNSt6vectorIcSaIcEE6insertIN9__gnu_cxx17__normal_iteratorIPcS1_EEvEES6_NS4_IPKcS1_EET_SA_(struct vec_char *this, struct vchar_citerator pos, struct vchar_iterator first, struct vchar_iterator last)
+{ struct vchar_iterator it; LIVE(this, 24, "std::vector<char>::insert(range)"); __CPROVER_assert(ITER_IDX(&pos) <= SZ(this), "std::vector<char>::insert(iterator, first, last): the position is within [begin, end]"); __CPROVER_assert(ITER_IDX(&first) <= ITER_IDX(&last), "std::vector<char>::insert: [first, last) is a valid range");
+  __CPROVER_assume(SZ(this) + (ITER_IDX(&last) - ITER_IDX(&first)) <= MAXLEN); SZ(this) = SZ(this) + (ITER_IDX(&last) - ITER_IDX(&first)); CW(this, 0) = __g2c_nondet_ulong(); ITER_IDX(&it) = ITER_IDX(&pos); return it; }
+struct vchar_iterator _ZNSt6vectorIcSaIcEE6insertIN9__gnu_cxx17__normal_iteratorIPcNSt7__cxx1112basic_stringIcSt11char_traitsIcES0_EEEEvEENS4_IS5_S1_EENS4_IPKcS1_EET_SG_(struct vec_char *this, struct vchar_citerator pos, struct str_iterator first, struct str_iterator last)
+{ struct vchar_iterator it; LIVE(this, 24, "std::vector<char>::insert(range)"); __CPROVER_assert(ITER_IDX(&pos) <= SZ(this), "std::vector<char>::insert(iterator, first, last): the position is within [begin, end]"); __CPROVER_assert(ITER_IDX(&first) <= ITER_IDX(&last), "std::vector<char>::insert: [first, last) is a valid range");
+  __CPROVER_assume(SZ(this) + (ITER_IDX(&last) - ITER_IDX(&first)) <= MAXLEN); SZ(this) = SZ(this) + (ITER_IDX(&last) - ITER_IDX(&first)); CW(this, 0) = __g2c_nondet_ulong(); ITER_IDX(&it) = ITER_IDX(&pos); return it; }
+struct vval_iterator _ZNSt6vectorIN4bloc5ValueESaIS1_EE3endEv(struct vec_Value *this) { struct vval_iterator it; LIVE(this, 24, "std::vector<Value>::end"); ITER_IDX(&it) = SZ(this); return it; }
+/* walking the elements of a table: every element is the ghost element */
+struct vval_iterator *_ZN9__gnu_cxx17__normal_iteratorIPN4bloc5ValueESt6vectorIS2_SaIS2_EEEppEv(struct vval_iterator *this) { ITER_IDX(this) = ITER_IDX(this) + 1; return this; }
+_Bool _ZN9__gnu_cxxneIPN4bloc5ValueESt6vectorIS2_SaIS2_EEEEbRKNS_17__normal_iteratorIT_T0_EESC_(const struct vval_iterator *a, const struct vval_iterator *b) { return ITER_IDX(a) != ITER_IDX(b); }
+struct Value *_ZNK9__gnu_cxx17__normal_iteratorIPN4bloc5ValueESt6vectorIS2_SaIS2_EEEdeEv(const struct vval_iterator *this) { (void)this; return &g_tab_elem; }
+/* std::vector<Value>::insert(pos, Value&&): the new element becomes one of "the elements" (g_tab_elem stands for any of them); the argument is left moved-from */
+struct vval_iterator _ZNSt6vectorIN4bloc5ValueESaIS1_EE6insertEN9__gnu_cxx17__normal_iteratorIPKS1_S3_EEOS1_(struct vec_Value *this, struct vval_citerator pos, struct Value *v)
+{
+  struct vval_iterator it; LIVE(this, 24, "std::vector<Value>::insert");
+  __CPROVER_assert(ITER_IDX(&pos) <= SZ(this), "std::vector<Value>::insert(iterator, v): the position is within [begin, end]");
+  __CPROVER_assume(SZ(this) < MAXLEN); SZ(this) = SZ(this) + 1;
+  if (__g2c_nondet_bool()) { g_tab_elem._flags = v->_flags; g_tab_elem._type._major = v->_type._major; g_tab_elem._type._minor = v->_type._minor; g_tab_elem._type._level = v->_type._level; g_tab_elem._value.i = v->_value.i; }
+  v->_flags = 0;
+  ITER_IDX(&it) = ITER_IDX(&pos); return it;
+}
 /* Collection::iterator Collection::erase(const_iterator pos) { return v.erase(pos); }  (collection.cpp; contract = std::vector::erase) */
 struct vval_iterator _ZN4bloc10Collection5eraseEN9__gnu_cxx17__normal_iteratorIPKNS_5ValueESt6vectorIS3_SaIS3_EEEE(struct Collection *this, struct vval_citerator pos)
 { struct vval_iterator it; __CPROVER_assert(ITER_IDX(&pos) < SZ(&this->v), "std::vector<Value>::erase(iterator): the position is dereferenceable (erase(end()) is undefined)"); SZ(&this->v) = SZ(&this->v) - 1; ITER_IDX(&it) = ITER_IDX(&pos); return it; }
